@@ -551,6 +551,10 @@ class Interp:
         if isinstance(v, ModuleVal):
             if name in v.attrs:
                 return v.attrs[name]
+            if getattr(v, "unmodelled", False):
+                sub = ModuleVal(v.name + "." + name)
+                sub.unmodelled = True
+                return sub
             raise Unsupported(f"module attribute {v.name}.{name} is not modelled")
         if isinstance(v, EnumMember):
             if name == "name":
@@ -668,6 +672,8 @@ class Interp:
                 return c(self, *args, **kwargs)
         if isinstance(f, (StaticM,)):
             return self.call(f.func, args, kwargs)
+        if isinstance(f, ModuleVal) and getattr(f, "unmodelled", False):
+            raise Unsupported(f"call of {f.name}: module is not modelled")
         raise Unsupported(f"call of {f!r}")
 
     def instantiate(self, cls, args, kwargs):
@@ -834,7 +840,13 @@ class Interp:
             return self.model_modules[name]
         if name == self.pkg or name.startswith(self.pkg + "."):
             return self.load_module(name)
-        raise Unsupported(f"import of unmodelled module {name}")
+        if name.startswith("siosocks"):
+            raise Unsupported(f"import of unmodelled module {name}")
+        # unknown module: importing is fine, *using* it makes the using function undecided
+        m = ModuleVal(name)
+        m.unmodelled = True
+        self.model_modules[name] = m
+        return m
 
     def x_ImportFrom(self, s, env, qual):
         if s.level:
@@ -859,6 +871,11 @@ class Interp:
             raise
         for al in s.names:
             if al.name not in mod.attrs:
+                if getattr(mod, "unmodelled", False):
+                    sub = ModuleVal(mod.name + "." + al.name)
+                    sub.unmodelled = True
+                    env.vars[al.asname or al.name] = sub
+                    continue
                 raise Unsupported(f"from {modname} import {al.name}: not modelled")
             env.vars[al.asname or al.name] = mod.attrs[al.name]
 
